@@ -388,6 +388,7 @@ def execute_one(plan):
                     return
                 continue
             txn.begin_seq = world.log.add(world.now(), "txn_begin", pid, ti)
+            txn.begin_t = world.now()
             failed = None
 
             async def offsets_step():
@@ -426,8 +427,8 @@ def execute_one(plan):
             want = t["end"]
             if failed is not None:
                 txn.error = failed
-                # did the call fail while a fault was still in effect?
-                txn.error_during_fault = world.now() <= world.last_fault_effect + 1e-9
+                # was a fault in effect at any time while this transaction's calls were running?
+                txn.error_during_fault = txn.begin_t <= world.last_fault_effect + 1e-9
                 want = "abort"
                 world.probe("app_aborts_after_error")
                 if failed == "hang":
